@@ -5,6 +5,7 @@
 # Works on a scratch copy of /repo (outside /repo and /verif) which is removed afterwards.
 set -u
 sd=$(realpath "$1"); id=$2; shift 2
+here=$(cd "$(dirname "$(realpath "$0")")/.." && pwd)
 d=$(mktemp -d /tmp/seedchk_XXXXXX)
 git -C /repo worktree add -q --detach $d/tree HEAD || { echo "worktree failed"; exit 3; }
 t=$d/tree
@@ -15,8 +16,8 @@ git -C $t apply "$sd/patch.diff" || { echo "PATCH DOES NOT APPLY"; exit 3; }
 ( cd $sd && PYTHONPATH=$t/src timeout 300 /venv/bin/python demo.py >$d/demo_mut.out 2>&1 ); rc_mut=$?
 echo "demo: clean rc=$rc_clean, patched rc=$rc_mut"
 tail -3 $d/demo_mut.out | cut -c1-300
-if [ -x /tmp/seedtools/pinned.py ]; then /tmp/seedtools/pinned.py $t | tail -3; fi
-cd /verif
+"$here/tools/pinned.py" $t | tail -3
+cd "$here"
 VERIF_EVIDENCE_DIR=$d/ev VERIF_REPO=$t ./vcheck $id "$@" 2>&1 | grep -E "VIOLATION|KNOWN-FINDING|^\[|rc=|exit|evidence|HARNESS" | cut -c1-400 | tail -15
 rc=${PIPESTATUS[0]}
 echo "vcheck rc=$rc"
